@@ -312,8 +312,8 @@ def g_rowmap(rng, ragged):
 @form('sub', ragged='rect')
 def g_sub(rng, ragged):
     t = _table(rng, False, pool=TEXT)
-    return {'table': t, 'field': rng.choice(t[0]) if rng.random() < 0.7 else rng.randrange(len(t[0])), 'pattern': rng.choice(['a', 'b+', '^.', ' ']),
-            'repl': rng.choice(['X', '', r'<\g<0>>']), 'count': rng.choice([0, 0, 1])}
+    return {'table': t, 'field': rng.choice(t[0]) if rng.random() < 0.7 else rng.randrange(len(t[0])), 'pattern': rng.choice(['a', 'b+', '^.', ' ', 'A', 'X|B+']),
+            'repl': rng.choice(['X', '', r'<\g<0>>']), 'count': rng.choice([0, 0, 1]), 'flags': rng.choice([0, 0, 2])}      # 2 = re.IGNORECASE
 
 
 @form('values', ragged='exact', dup=True)
@@ -813,9 +813,13 @@ def j_sub(case, ctx, table, hdr, rows, tabs, frame):
     import re
     f = case['field']
     fi = f if isinstance(f, int) else hdr.index(f)
-    prog = re.compile(case['pattern'])
+    fl = case.get('flags', 0)
+    fkw = {'flags': fl} if fl else {}
+    if fl:
+        ctx.seen('sub:regex-flags')
+    prog = re.compile(case['pattern'], fl)
     exp = [tuple(hdr)] + [tuple(prog.sub(case['repl'], v, count=case['count']) if i == fi else v for i, v in enumerate(r)) for r in rows]
-    return _report(_run(lambda: petl.sub(table, f, case['pattern'], case['repl'], count=case['count'])), exp, 'sub', case)
+    return _report(_run(lambda: petl.sub(table, f, case['pattern'], case['repl'], count=case['count'], **fkw)), exp, 'sub', case)
 
 
 def j_values(case, ctx, table, hdr, rows, tabs, frame):
